@@ -334,6 +334,11 @@ class Program:
     def const(self, module: str, name: str) -> ast.AST:
         m = self.module(module)
         if name not in m.consts:
+            # a table that moved to another module of the package (and is imported back or referenced there) is the same table
+            homes = [o for o in self.modules.values() if name in o.consts]
+            if len(homes) == 1:
+                self.consulted.add(homes[0].name)
+                return homes[0].consts[name]
             raise AnalysisError(f"anchor table {module}::{name} not found")
         return m.consts[name]
 
